@@ -13,6 +13,7 @@ import (
 	"runtime"
 	"strconv"
 	"sync"
+	"sync/atomic"
 	"testing"
 	"time"
 
@@ -33,6 +34,13 @@ func c05GenThreadingSeq(r *verifh.Rng) []verifh.Section {
 
 func c05GenThreadingConc(r *verifh.Rng) []verifh.Section {
 	var secs []verifh.Section
+	for i := 0; i < verifh.Scale(6, 100); i++ {
+		n := r.Pick(1, 2, 3, r.Range(1, 12), 16)
+		secs = append(secs, verifh.Section{Cfg: fmt.Sprintf("kind=wgroup mode=conc n=%d", n), Ops: []string{
+			fmt.Sprintf("run api=workergroup pan=%d rs=%d", r.Pick(0, 30, 100), r.Intn(1<<30)),
+			fmt.Sprintf("run api=routinegroup pan=%d rs=%d", r.Pick(0, 0, 50), r.Intn(1<<30)),
+		}})
+	}
 	for i := 0; i < verifh.Scale(5, 150); i++ {
 		n := r.Pick(1, 2, 3, r.Range(1, 8))
 		g := r.Pick(1, 2, n+1, r.Range(2, 8))
@@ -187,6 +195,10 @@ func c05StartRunner(cfg verifh.Cfg) (func(op []string) string, func()) {
 			if !c5.Watchdog(5*time.Second, rp.Wait) {
 				return "stuck wait"
 			}
+			// Wait returned: no task may still be inside its body
+			if cur := ga.Cur(); cur != 0 {
+				return fmt.Sprintf("early=%d %s", cur, c5.RunLine(h, ga, cap(rp.limitChan)-len(rp.limitChan)))
+			}
 			// Wait returned: every slot has to be free already (release happens before Done)
 			free := cap(rp.limitChan) - len(rp.limitChan)
 			if pf := probe(); pf != free {
@@ -208,11 +220,57 @@ func TestVerifC05ThreadingSeq(t *testing.T) { c05RunThreading(t, verifh.Sections
 
 func TestVerifC05ThreadingConc(t *testing.T) { c05RunThreading(t, verifh.Sections(c05GenThreadingConc)) }
 
+// WorkerGroup / RoutineGroup: `run` starts NewWorkerGroup(job, n).Start(); the jobs stamp the history.
+func c05StartWorkerGroup(cfg verifh.Cfg) (func(op []string) string, func()) {
+	n := cfg.Int("n", 1)
+	step := func(op []string) string {
+		if op[0] != "run" {
+			return "bad-op"
+		}
+		p := c5.Params(op)
+		pan := p.Int("pan", 0)
+		h := c5.NewHist(0)
+		ga := &c5.Gauge{}
+		var ids int64
+		job := func() {
+			tid := int(atomic.AddInt64(&ids, 1)) - 1
+			c5.Inside(h, ga, verifh.NewRng(uint64(p.Int("rs", 1))*1000003+uint64(tid)), -1, tid, pan)
+		}
+		if p.Str("api", "workergroup") == "workergroup" {
+			if !c5.Watchdog(c5.StuckAfter, NewWorkerGroup(job, n).Start) {
+				return "stuck"
+			}
+		} else {
+			// RoutineGroup used directly: n calls, Run (only without panics: Run does not recover) or RunSafe
+			g := NewRoutineGroup()
+			for i := 0; i < n; i++ {
+				if pan == 0 && i%2 == 0 {
+					g.Run(job)
+				} else {
+					g.RunSafe(job)
+				}
+			}
+			if !c5.Watchdog(c5.StuckAfter, g.Wait) {
+				return "stuck"
+			}
+		}
+		// Start / Wait returned: every job has to have ended
+		if cur := ga.Cur(); cur != 0 {
+			return fmt.Sprintf("early=%d %s", cur, c5.RunLine(h, ga, -1))
+		}
+		return c5.RunLine(h, ga, -1)
+	}
+	return step, nil
+}
+
 func c05RunThreading(t *testing.T, secs []verifh.Section) {
 	logx.Disable()
 	verifh.Run(t, secs, func(cfg verifh.Cfg) (func(op []string) string, func()) {
 		if cfg.Str("kind", "") == "runner" {
 			return c05StartRunner(cfg)
+		}
+		if cfg.Str("kind", "") == "wgroup" {
+			return c05StartWorkerGroup(cfg)
 		}
 		return func([]string) string { return "bad-kind" }, nil
 	})
